@@ -72,6 +72,10 @@ pub trait Fl: 'static {
     fn raise_epoch_signal(tx: &Self::Tx);
     /// harness-only look at the queue state
     fn queue_view(tx: &Self::Tx) -> multiqueue2::verif_hooks::QueueView;
+    /// state injection: n earlier retirements are still waiting in the (real) memory manager
+    fn preload_retirements(tx: &Self::Tx, n: usize);
+    /// (retire list length, current batch length) of the real memory manager
+    fn pending_retirements(tx: &Self::Tx) -> (usize, usize);
 
     fn try_recv(rx: &Self::Rx) -> Result<Self::P, TryRecvError>;
     fn recv(rx: &Self::Rx) -> Result<Self::P, RecvError>;
@@ -124,6 +128,12 @@ impl<P: Pay, W: WaitSel> Fl for BcastPlain<P, W> {
     }
     fn queue_view(tx: &Self::Tx) -> multiqueue2::verif_hooks::QueueView {
         tx.verif_view()
+    }
+    fn preload_retirements(tx: &Self::Tx, n: usize) {
+        tx.verif_preload_retirements(n)
+    }
+    fn pending_retirements(tx: &Self::Tx) -> (usize, usize) {
+        tx.verif_pending()
     }
     #[inline(always)]
     fn try_recv(rx: &Self::Rx) -> Result<P, TryRecvError> {
@@ -189,6 +199,12 @@ impl<P: Pay, W: WaitSel> Fl for MpmcPlain<P, W> {
     }
     fn queue_view(tx: &Self::Tx) -> multiqueue2::verif_hooks::QueueView {
         tx.verif_view()
+    }
+    fn preload_retirements(tx: &Self::Tx, n: usize) {
+        tx.verif_preload_retirements(n)
+    }
+    fn pending_retirements(tx: &Self::Tx) -> (usize, usize) {
+        tx.verif_pending()
     }
     #[inline(always)]
     fn try_recv(rx: &Self::Rx) -> Result<P, TryRecvError> {
@@ -277,6 +293,12 @@ impl<P: Pay, const A: usize, const B: usize> Fl for BcastFut<P, A, B> {
     }
     fn queue_view(tx: &Self::Tx) -> multiqueue2::verif_hooks::QueueView {
         tx.verif_view()
+    }
+    fn preload_retirements(tx: &Self::Tx, n: usize) {
+        tx.verif_preload_retirements(n)
+    }
+    fn pending_retirements(tx: &Self::Tx) -> (usize, usize) {
+        tx.verif_pending()
     }
     #[inline(always)]
     fn try_recv(rx: &Self::Rx) -> Result<P, TryRecvError> {
@@ -369,6 +391,12 @@ impl<P: Pay, const A: usize, const B: usize> Fl for MpmcFut<P, A, B> {
     }
     fn queue_view(tx: &Self::Tx) -> multiqueue2::verif_hooks::QueueView {
         tx.verif_view()
+    }
+    fn preload_retirements(tx: &Self::Tx, n: usize) {
+        tx.verif_preload_retirements(n)
+    }
+    fn pending_retirements(tx: &Self::Tx) -> (usize, usize) {
+        tx.verif_pending()
     }
     #[inline(always)]
     fn try_recv(rx: &Self::Rx) -> Result<P, TryRecvError> {
